@@ -1,0 +1,159 @@
+//go:build verif
+
+package pdf
+
+import (
+	"bytes"
+	"sort"
+)
+
+// This file is only compiled with the build tag "verif".  It exposes the
+// unexported cross-reference and object-stream code to the external
+// verification harness (work package FIO: properties C02/C03); it adds no
+// behaviour of its own.
+
+// VerifFIOEntry mirrors xRefEntry together with its object number.
+type VerifFIOEntry struct {
+	Num      uint32
+	InStream uint32 // object number of the containing object stream, 0 = none
+	Pos      int64
+	Gen      uint16
+}
+
+func verifXRefOut(xref map[uint32]*xRefEntry) []VerifFIOEntry {
+	var res []VerifFIOEntry
+	for k, e := range xref {
+		if e == nil {
+			continue
+		}
+		res = append(res, VerifFIOEntry{Num: k, InStream: e.InStream.Number(), Pos: e.Pos, Gen: e.Generation})
+	}
+	sort.Slice(res, func(i, j int) bool { return res[i].Num < res[j].Num })
+	return res
+}
+
+func verifXRefIn(pre []VerifFIOEntry) map[uint32]*xRefEntry {
+	xref := make(map[uint32]*xRefEntry)
+	for _, e := range pre {
+		ent := &xRefEntry{Pos: e.Pos, Generation: e.Gen}
+		if e.InStream != 0 {
+			ent.InStream = NewReference(e.InStream, 0)
+		}
+		xref[e.Num] = ent
+	}
+	return xref
+}
+
+// VerifReadXRefTable runs readXRefTable on data (which starts at "xref"),
+// with pre as the entries already known.  It returns the resulting table,
+// the trailer dictionary and the number of bytes consumed.
+func VerifReadXRefTable(pre []VerifFIOEntry, data []byte) ([]VerifFIOEntry, Dict, int64, error) {
+	xref := verifXRefIn(pre)
+	s := newScanner(bytes.NewReader(data), nil, nil)
+	dict, err := readXRefTable(xref, s)
+	return verifXRefOut(xref), dict, s.CurrentPos(), err
+}
+
+// VerifDecodeXRefSection runs decodeXRefSection on data.
+func VerifDecodeXRefSection(pre []VerifFIOEntry, data []byte, start, end uint32) ([]VerifFIOEntry, int64, error) {
+	xref := verifXRefIn(pre)
+	s := newScanner(bytes.NewReader(data), nil, nil)
+	err := decodeXRefSection(xref, s, start, end)
+	return verifXRefOut(xref), s.CurrentPos(), err
+}
+
+// VerifCheckXRefStreamDict runs checkXRefStreamDict.
+func VerifCheckXRefStreamDict(dict Dict, rawLen int64) ([]int, [][2]uint32, error) {
+	w, ss, err := checkXRefStreamDict(dict, rawLen)
+	var out [][2]uint32
+	for _, s := range ss {
+		out = append(out, [2]uint32{s.Start, s.Size})
+	}
+	return w, out, err
+}
+
+// VerifDecodeXRefStream runs decodeXRefStream on the decoded stream data.
+func VerifDecodeXRefStream(pre []VerifFIOEntry, data []byte, w []int, ss [][2]uint32) ([]VerifFIOEntry, error) {
+	xref := verifXRefIn(pre)
+	var secs []*xRefSubSection
+	for _, s := range ss {
+		secs = append(secs, &xRefSubSection{Start: s[0], Size: s[1]})
+	}
+	err := decodeXRefStream(xref, bytes.NewReader(data), w, secs)
+	return verifXRefOut(xref), err
+}
+
+// VerifDecodeInt runs decodeInt.
+func VerifDecodeInt(buf []byte) (int64, error) { return decodeInt(buf) }
+
+// VerifEncodeInt64 runs encodeInt64.
+func VerifEncodeInt64(x uint64, w int) []byte {
+	buf := &bytes.Buffer{}
+	_ = encodeInt64(buf, x, w)
+	return buf.Bytes()
+}
+
+// VerifWriterXRef returns a snapshot of the writer's cross-reference
+// information: the entries, nextRef, the output position and the inStream
+// flag.
+func VerifWriterXRef(w *Writer) (entries []VerifFIOEntry, nextRef uint32, pos int64, inStream bool) {
+	return verifXRefOut(w.xref), w.nextRef, w.w.pos, w.inStream
+}
+
+// VerifSetXRef runs Writer.setXRef.
+func VerifSetXRef(w *Writer, ref Reference, e VerifFIOEntry) error {
+	ent := &xRefEntry{Pos: e.Pos, Generation: e.Gen}
+	if e.InStream != 0 {
+		ent.InStream = NewReference(e.InStream, 0)
+	}
+	return w.setXRef(ref, ent)
+}
+
+// VerifWriteXRefSection makes w (a fresh Writer whose header has been
+// written) adopt the given cross-reference entries and nextRef, and then
+// runs writeXRefStream or writeXRefTable with the given dictionary, followed
+// by a flush.  The caller cuts the header off the produced bytes.
+func VerifWriteXRefSection(w *Writer, entries []VerifFIOEntry, nextRef uint32, dict Dict, stream bool) error {
+	w.xref = verifXRefIn(entries)
+	w.nextRef = nextRef
+	w.w.enc = nil
+	var err error
+	if stream {
+		err = w.writeXRefStream(dict)
+	} else {
+		err = w.writeXRefTable(dict)
+	}
+	if err != nil {
+		return err
+	}
+	return w.w.w.Flush()
+}
+
+// VerifObjStmIndex runs getObjStm on an object stream and returns the
+// (object number, absolute offset) table and the scanner position after the
+// header.
+func VerifObjStmIndex(r Getter, stream *Stream) (nums []uint32, offs []int, headEnd int64, err error) {
+	contents, err := getObjStm(r, stream, safeGetInteger(r, false), nil)
+	if err != nil {
+		return nil, nil, 0, err
+	}
+	defer contents.Close()
+	for _, x := range contents.idx {
+		nums = append(nums, x.number)
+		offs = append(offs, x.offs)
+	}
+	return nums, offs, contents.s.CurrentPos(), nil
+}
+
+// VerifStreamExtent returns the position and length of the raw data of a
+// stream read from a file.
+func VerifStreamExtent(x *Stream) (start, length int64) { return x.start, x.length }
+
+// VerifFIOReaderXRef returns the reader's cross-reference table.
+func VerifFIOReaderXRef(r *Reader) []VerifFIOEntry { return verifXRefOut(r.xref) }
+
+// VerifGetFromObjStm runs getFromObjStm: object number from the object stream
+// sRef of r.
+func VerifGetFromObjStm(r Getter, number uint32, sRef Reference) (Native, error) {
+	return getFromObjStm(r, number, sRef, safeGetInteger(r, false), nil)
+}
